@@ -30,7 +30,9 @@ RULE = ('fixed grid: every defaultable (and non-defaultable) field type x parame
         'member of a struct / union / inherited / subtype / inherited tag / embedded twice over x case declared before or after '
         'what it refers to (quick: struct and union members in full, a seeded fifth of the rest); shape grid: 28 whole-example '
         'shapes of a union and of a struct with enumerated subtypes; void members in the example grid; compact form of every '
-        'judged example; inherited defaults read on instances of every descendant')
+        'judged example, and every example read once more after the compact form has been read in the same process (the later '
+        'reading is the same document and still round-trips); inherited defaults read on instances of every descendant; the value '
+        'read is compared with the default of the IR and with the literal the spec declares (exact numeric value)')
 
 # ==================================================================================================
 # real compiler, fast path
@@ -410,6 +412,7 @@ def grid_literals():
     for lo, hi in (I32, U32, I64, U64):
         ints += [lo - 1, lo, lo + 1, hi - 1, hi, hi + 1]
     ints += [10 ** 30, 10 ** 38, 4 * 10 ** 38, 10 ** 400, -10 ** 400, 2 ** 53 + 1]
+    ints += [2 ** 53, 2 ** 53 + 2, -(2 ** 53 + 1), 2 ** 24 + 1]      # around the last integer every double / single holds
     out = ['null', 'true', 'false'] + [str(n) for n in sorted(set(ints))]
     out += ['0.0', '-0.0', '1.0', '1.5', '2.5', '2.6', '-1.5', '-1.6', '2.0', '0.1', '1e30', '5e30', '1e31', '2e31',
             '3.40282e38', '3.4028235e38', '-3.40282e38', '-3.4028235e38', '1e39', '1e400', '-1e400', '1e-400',
@@ -463,6 +466,36 @@ def same_scalar(a, b):
     return a == b
 
 
+_NO_LITERAL = object()
+
+
+def declared_literal(field):
+    """the default as the spec writes it (the literal the parser read, before the compiler converts or checks it);
+    _NO_LITERAL for a tag reference or a field that carries no syntax node"""
+    node = getattr(field, '_ast_node', None)
+    if node is None or not getattr(node, 'has_default', True):
+        return _NO_LITERAL
+    lit = getattr(node, 'default', _NO_LITERAL)
+    if lit is None or isinstance(lit, (bool, int, float, str)):
+        return lit
+    return _NO_LITERAL
+
+
+def same_literal(got, lit):
+    """the value read is the declared literal: numbers by exact value (2**53 + 1 is not 9007199254740992.0), booleans
+    and null as themselves, text as text (a text default that the class hands out as another kind of object - a
+    date, bytes - is the business of the other checks, not judged here)"""
+    if lit is None:
+        return got is None
+    if isinstance(lit, bool) or isinstance(got, bool):
+        return isinstance(lit, bool) and isinstance(got, bool) and got == lit
+    if isinstance(lit, (int, float)):
+        return isinstance(got, (int, float)) and got == lit
+    if isinstance(lit, str):
+        return got == lit if isinstance(got, str) else True
+    return True
+
+
 def classify_default_refusal(field):
     """diagnostic class of a refused default (for the signature only; the verdict does not depend on it)"""
     from stone.ir import Bytes, String, Timestamp
@@ -510,6 +543,16 @@ def judge_default(built, struct_ir, field, via=None):
             problems.append(('unset defaulted field does not read as the declared default',
                              {'kind': 'default-read', 'why': 'different-value', 'type': tname},
                              {'got': repr(got)[:200], 'declared': repr(d)[:200]}))
+        else:
+            # "exactly the declared default": the declaration is the literal of the spec (what the parser read), not
+            # what the compiler made of it on the way to the IR - a number must come back as that very number
+            # (Python compares int and float exactly), a text as that text, a boolean as that boolean
+            lit = declared_literal(field)
+            if lit is not _NO_LITERAL and not same_literal(got, lit):
+                problems.append(('unset defaulted field reads as another value than the literal the spec declares',
+                                 {'kind': 'default-read', 'why': 'not-the-declared-literal', 'type': tname,
+                                  'literal': type(lit).__name__},
+                                 {'got': repr(got)[:200], 'declared_literal': repr(lit)[:200], 'ir_default': repr(d)[:200]}))
     descriptor = getattr(cls, attr)
     why = None
     try:
@@ -1366,7 +1409,8 @@ def judge_example(built, dt, label, example_value, perms):
         why = first_difference(dt, doc, back) or 'other'
         return ([('decoded example encodes to a different document', {'kind': 'example-roundtrip', 'why': why},
                   {'encoded': back, 'of': kind})], obj, back)
-    return (judge_compact(built, dt, label, doc, validator, p), obj, back)
+    problems = judge_compact(built, dt, label, doc, validator, p)
+    return (problems + judge_rereading(built, dt, label, doc, validator, p), obj, back)
 
 
 _COMPACT = {}
@@ -1380,6 +1424,81 @@ def compact_examples_of(dt):
             _COMPACT.clear()
         hit = _COMPACT[id(dt)] = (dt, dt.get_examples(compact=True))
     return hit[1]
+
+
+_REREAD = {}
+REREAD_STATS = {'examples_read_again_after_compact': 0, 'of_them_compacted_below_top_level': 0}
+
+
+def reread_examples_of(dt):
+    """dt.get_examples() read once more AFTER the compact form of the same type has been read in this process (what a
+    second backend, or a checker, meets after a documentation-style backend): (examples | None, exception | None)"""
+    hit = _REREAD.get(id(dt))
+    if hit is None or hit[0] is not dt:
+        if len(_REREAD) > 400:
+            _REREAD.clear()
+        try:
+            compact_examples_of(dt)
+            compact_examples_of(dt)         # a reader of the compact form may well come by twice
+        except Exception:  # noqa: BLE001 - reported by judge_compact
+            pass
+        try:
+            res = (dt.get_examples(), None)
+        except Exception as e:  # noqa: BLE001
+            res = (None, e)
+        hit = _REREAD[id(dt)] = (dt, res)
+    return hit[1]
+
+
+def judge_rereading(built, dt, label, doc, validator, p):
+    """"every example the compiler computes": the example is computed once, when the spec is compiled; whoever reads
+    it, in whatever form and order, every later get_examples() must still hand out that document. Judged on the
+    property itself first (the later reading decodes strictly and encodes back to itself), then against the first
+    reading. Reached only for an example whose first reading holds."""
+    from stone.backends.python_rsrc import stone_serializers as ss
+    if label is None:
+        return []
+    kind = type(dt).__name__.lower()
+    again, exc = reread_examples_of(dt)
+    if exc is not None:
+        return [('get_examples() raises once the compact form has been read', {'kind': 'example-reread', 'why': 'raises',
+                 'exc': type(exc).__name__}, {'error': repr(exc)[:200], 'of': kind})]
+    ex = again.get(label)
+    if ex is None:
+        return [('an example is gone from get_examples() once the compact form has been read',
+                 {'kind': 'example-reread', 'why': 'label-missing'}, {'of': kind})]
+    if non_json_leaf(ex.value) is not None:
+        return [('get_examples() hands out something that is no JSON document once the compact form has been read',
+                 {'kind': 'example-reread', 'why': 'not-json'}, {'reread': plain_json(ex.value), 'of': kind})]
+    doc2 = plain_json(ex.value)
+    REREAD_STATS['examples_read_again_after_compact'] += 1
+    try:
+        cex = compact_examples_of(dt).get(label)
+        if cex is not None and isinstance(cex.value, dict) and plain_json(cex.value) != doc:
+            REREAD_STATS['of_them_compacted_below_top_level'] += 1
+    except Exception:  # noqa: BLE001
+        pass
+    if doc2 == doc:
+        return []
+    sites = []
+    compaction_sites(dt, doc, doc2, sites)
+    where = ('compacted-' + sorted(set(sites))[0]) if sites else 'other'
+    order = 'get_examples(); get_examples(compact=True) twice; get_examples()'
+    try:
+        obj = ss.json_compat_obj_decode(validator, plain_json(doc2), caller_permissions=p, strict=True)
+        back = plain_json(ss.json_compat_obj_encode(validator, obj, caller_permissions=p))
+    except Exception as e:  # noqa: BLE001
+        return [('after a reading of the compact form, get_examples() returns a document that does not decode strictly as its type',
+                 {'kind': 'example-reread-decode', 'why': where, 'exc': type(e).__name__},
+                 {'first_reading': doc, 'later_reading': doc2, 'readings': order,
+                  'error': '%s: %s' % (type(e).__name__, str(e)[:200]), 'of': kind})]
+    if not json_same(doc2, back):
+        return [('after a reading of the compact form, get_examples() returns a document that encodes back to another document',
+                 {'kind': 'example-reread-roundtrip', 'why': where},
+                 {'first_reading': doc, 'later_reading': doc2, 'encoded': back, 'readings': order, 'of': kind})]
+    return [('the computed example changes between two readings of get_examples() in one process',
+             {'kind': 'example-reread-changed', 'why': where},
+             {'first_reading': doc, 'later_reading': doc2, 'readings': order, 'of': kind})]
 
 
 def compaction_sites(t, full, comp, out):
